@@ -158,13 +158,8 @@ class NamedQuery(AbstractQuery):
 
         string = str(first)
 
-        if len(tables) == 2:
-            second = tables[1]
-            string = f"{string} JOIN {second} ON {first.abbreviation}.id = {second.abbreviation}.id"
-        if len(tables) > 2:
-            raise AssertionError(
-                "Currently maximum of 2 tables supported"
-            )
+        for other in tables[1:]:
+            string = f"{string} JOIN {other} ON {first.abbreviation}.id = {other.abbreviation}.id"
 
         return string
 
